@@ -784,17 +784,25 @@ func (s *Store) DeleteShard(shardID uint64) error {
 	epoch := s.epochs[shardID]
 	s.mu.Unlock()
 
-	// Ensure the pending deletion flag is cleared on exit.
+	// Ensure the pending deletion flag is cleared on exit. A deletion abandoned before
+	// anything was changed puts the shard back: it stays usable and listed, so that the
+	// deletion is tried again (retention enforcement asks the store for its shards).
+	abandoned := false
 	defer func() {
 		s.mu.Lock()
 		defer s.mu.Unlock()
-		delete(s.epochs, shardID)
+		if abandoned {
+			s.shards[shardID] = sh
+		} else {
+			delete(s.epochs, shardID)
+		}
 		delete(s.pendingShardDeletes, shardID)
 	}()
 
 	// Get the shard's local bitset of series IDs.
 	index, err := sh.Index()
 	if err != nil {
+		abandoned = true
 		return err
 	}
 
@@ -814,6 +822,7 @@ func (s *Store) DeleteShard(shardID uint64) error {
 	if err != nil {
 		// We couldn't get the index for a shard. Rather than deleting series which may
 		// exist in that shard as well as in the current shard, we stop the current deletion
+		abandoned = true
 		return err
 	}
 
